@@ -1,0 +1,24 @@
+//go:build verif
+
+package opentype
+
+// Verification hooks for property C09 (add-only, compiled only with the build tag `verif`).
+
+// VerifSection is the directory entry a Loader keeps for a table.
+type VerifSection struct {
+	Tag                     Tag
+	Offset, Length, ZLength uint32
+}
+
+// VerifSections returns the table sections of the loader, sorted by tag.
+func (ld *Loader) VerifSections() []VerifSection {
+	out := make([]VerifSection, 0, len(ld.tables))
+	for _, tag := range ld.Tables() {
+		s := ld.tables[tag]
+		out = append(out, VerifSection{Tag: tag, Offset: s.offset, Length: s.length, ZLength: s.zLength})
+	}
+	return out
+}
+
+// VerifSize returns the resource size recorded when the directory was read.
+func (ld *Loader) VerifSize() int64 { return ld.size }
